@@ -104,11 +104,25 @@ def main():
     try:
         ctx.model = core.Model()
         mod.run(ctx)
-    except Exception:
+    except Exception as exc:
         tb = traceback.format_exc()
-        print('CHECK-BROKEN property=%s harness error:\n%s' % (prop_id, tb[-3000:]))
-        write_evidence(ctx, cp, '', 0, (0, 'not run'), [], broken='harness: ' + tb[-500:])
-        return 2
+        # Where was it raised?  An exception that comes out of the library under test (innermost
+        # frame inside <repo>/slimta) on a path where neither the model nor the harness expects one
+        # means the correspondence run could not be completed on the current source: that is a
+        # broken correspondence (reported below, with the traceback as its description), not a
+        # fault of the machinery.  Anything raised by the harness itself stays CHECK-BROKEN.
+        frames = traceback.extract_tb(sys.exc_info()[2])
+        repo_root = os.path.realpath(os.environ.get('VERIF_REPO', '/repo'))
+        inner = os.path.realpath(frames[-1].filename) if frames else ''
+        if inner.startswith(os.path.join(repo_root, 'slimta') + os.sep):
+            ctx.mismatch('implementation-raised-unexpectedly', dict(where='%s:%s in %s' % (inner[len(repo_root) + 1:], frames[-1].lineno, frames[-1].name),
+                                                                    traceback=tb[-2500:]),
+                         '%s: %s' % (type(exc).__name__, exc), 'no exception on this path (model and harness); the run was cut short here')
+            ctx.extra['run_cut_short_by_implementation_exception'] = True
+        else:
+            print('CHECK-BROKEN property=%s harness error:\n%s' % (prop_id, tb[-3000:]))
+            write_evidence(ctx, cp, '', 0, (0, 'not run'), [], broken='harness: ' + tb[-500:])
+            return 2
 
     # cross-check of extraction against vm_compute
     nx, badidx, xout = core.xcheck(prop_id, ctx.model, limit=(120 if ctx.quick else 400))
